@@ -89,6 +89,18 @@ func c12(c *Ctx) {
 		c.Expect(ls[register][mu], register, oh, "register-under-mu", "activeStreams insertion without t.mu held")
 		c.Dominates(register, handle, "register-before-handle")
 	})
+	c.Ob("lookups-checked", "R10", "server frame handlers dereference a looked-up stream only where the lookup succeeded, and call the optional tap hook only when one is installed (the reader goroutine has no recover)", 4, func() {
+		n := 0
+		for _, name := range []string{"handleData", "handleRSTStream", "handleWindowUpdate", "operateHeaders"} {
+			n += c.OkCheckedUse(c.fn(tr, "http2Server."+name), Callee(tr, "http2Server.getStream"), name+":unknown-stream-not-dereferenced")
+		}
+		c.Expect(n >= 4, nil, nil, "stream-lookup-uses", "fewer dereferencing uses of looked-up streams than on the reviewed tree")
+		oh := c.fn(tr, "http2Server.operateHeaders")
+		fTap := c.field(tr, "http2Server", "inTapHandle")
+		for _, ci := range callsIn(oh, FieldCall(fTap)) {
+			c.MustFact(ci, "tap-hook-called-only-when-installed", NotNil(FieldLoad(fTap)))
+		}
+	})
 	c.Ob("tap-refusal", "R2", "a non-nil error from the InTapHandle hook makes the hand-off unreachable", 1, func() {
 		fTap := c.field(tr, "http2Server", "inTapHandle")
 		c.Unreachable(handle, "tap-error-refuses", NotNil(CallRes(ValueCall(FieldLoad(fTap)), 1)))
